@@ -1,6 +1,7 @@
 package geojson
 
 import (
+	"encoding/binary"
 	"errors"
 
 	"github.com/paulmach/orb"
@@ -196,11 +197,24 @@ func (g *Geometry) UnmarshalJSON(data []byte) error {
 	return nil
 }
 
+// validateBSON checks that data is a well formed BSON document.
+func validateBSON(data []byte) error {
+	// Validate indexes the data with the declared length, rule out
+	// lengths that cannot hold even an empty document first.
+	if len(data) >= 4 {
+		if l := int32(binary.LittleEndian.Uint32(data)); l < 5 {
+			return errors.New("geojson: invalid bson document length")
+		}
+	}
+
+	return bson.Raw(data).Validate()
+}
+
 // UnmarshalBSON will unmarshal a BSON document created with bson.Marshal.
 func (g *Geometry) UnmarshalBSON(data []byte) error {
 	// the driver's struct decoder can loop forever on a document whose
 	// element lengths are corrupt, so make sure it is well formed first.
-	if err := bson.Raw(data).Validate(); err != nil {
+	if err := validateBSON(data); err != nil {
 		return err
 	}
 
